@@ -135,11 +135,22 @@ def floatLt (a b : α) : Bool := Arith.lt a b && !(Arith.lt (Arith.abs (Arith.su
 /-- `f64::is_zero`. -/
 def isZero (c : α) : Bool := Arith.eq c zero
 
+/-- the two decisions of `format_var`: is a minus sign shown, and which magnitude token (none for ±1). -/
+def formatVarParts (value : α) : Bool × Option α :=
+  (floatLt value zero,
+   if Arith.eq value one || Arith.eq value (Arith.neg one) then none else some (Arith.abs value))
+
 /-- `format_var`. -/
 def formatVar (tok : α → String) (name : String) (value : α) (isFirst : Bool) : String :=
-  let sign := if floatLt value zero then "- " else if isFirst then "" else "+ "
-  let num := if Arith.eq value one || Arith.eq value (Arith.neg one) then "" else tok (Arith.abs value)
+  let parts := formatVarParts value
+  let sign := if parts.1 then "- " else if isFirst then "" else "+ "
+  let num := match parts.2 with | none => "" | some m => tok m
   sign ++ num ++ name
+
+/-- the coefficient a reader takes from a rendered term: sign times magnitude (1 when omitted). -/
+def termValue (parts : Bool × Option α) : α :=
+  let m := match parts.2 with | none => one | some m => m
+  if parts.1 then Arith.neg m else m
 
 /-- the `enumerate().flat_map(..)` loop over a coefficient vector; `none` = `self.variables[i]` out of range
 (index panic). -/
